@@ -1108,3 +1108,303 @@ Proof.
         { apply orb_false_elim in Ham. tauto. }
         rewrite Hnm, E0. cbn [obind]. eexists; split; [reflexivity|]. apply dec_ok_un; assumption.
 Qed.
+
+(* ================================================================ the property theorems *)
+Theorem to_list_total b e :
+  supportedb e = true ->
+  exists d, decorate b e = Some d /\ (no_bad b d = true -> exists l, to_list b None d = Some l).
+Proof.
+  intro Hs. destruct (decorate_ok b (S (esize e)) e (Nat.lt_succ_diag_r _) Hs) as [d [E [W _]]].
+  exists d. split; [exact E|]. intro Hnb.
+  destruct (to_list_good (S (dsize d)) b d (Nat.lt_succ_diag_r _) W Hnb None) as [l [El _]]. eauto.
+Qed.
+
+Lemma to_list_main b e d l :
+  supportedb e = true -> decorate b e = Some d -> no_bad b d = true -> to_list b None d = Some l ->
+  exists t, of_prefix (relabel l) = Some t /\ tsize t = length l
+    /\ (exactb e = true -> forall env x, pos b env x e -> evalT env x t = sem env x e)
+    /\ (std_binary b = true -> over_basisb b e = true -> forallb (lab_okb b) (relabel l) = true).
+Proof.
+  intros Hs Ed Hnb El.
+  destruct (decorate_ok b (S (esize e)) e (Nat.lt_succ_diag_r _) Hs) as [d' [E [W [Sm [P [X B]]]]]].
+  rewrite Ed in E. injection E as <-.
+  destruct (to_list_good (S (dsize d)) b d (Nat.lt_succ_diag_r _) W Hnb None) as [l' [El' [t [R [Wt [St Bt]]]]]].
+  rewrite El in El'. injection El' as <-.
+  exists t. split; [rewrite R; apply of_prefix_to_prefix; exact Wt|].
+  split; [rewrite <- length_to_prefix, <- R; unfold relabel; apply map_length|].
+  split.
+  - intros Hx env x Hp. rewrite St; auto.
+  - intros Hb Ho. auto.
+Qed.
+
+Theorem to_list_wellformed b e d l :
+  supportedb e = true -> decorate b e = Some d -> no_bad b d = true -> to_list b None d = Some l ->
+  exists t, of_prefix (relabel l) = Some t /\ tsize t = length l /\ count_nodes b d = Some (length l).
+Proof.
+  intros Hs Ed Hnb El. destruct (to_list_main b e d l Hs Ed Hnb El) as [t [Ht [Hsz _]]].
+  exists t. repeat split; auto. unfold count_nodes. rewrite El. reflexivity.
+Qed.
+
+Theorem to_list_sound b e d l :
+  supportedb e = true -> exactb e = true -> decorate b e = Some d -> no_bad b d = true -> to_list b None d = Some l ->
+  exists t, of_prefix (relabel l) = Some t /\ forall env x, pos b env x e -> evalT env x t = sem env x e.
+Proof.
+  intros Hs Hx Ed Hnb El. destruct (to_list_main b e d l Hs Ed Hnb El) as [t [Ht [_ [Hsem _]]]].
+  exists t. split; auto.
+Qed.
+
+Theorem labels_in_basis_except_sqrt_log b e d l :
+  supportedb e = true -> over_basisb b e = true -> std_binary b = true ->
+  decorate b e = Some d -> no_bad b d = true -> to_list b None d = Some l ->
+  forallb (lab_okb b) (relabel l) = true.
+Proof.
+  intros Hs Ho Hb Ed Hnb El. destruct (to_list_main b e d l Hs Ed Hnb El) as [t [_ [_ [_ H]]]]. auto.
+Qed.
+
+(* ---- witnesses of the two refuted statements *)
+Definition w_sqrt : sexpr := EApp "Pow" [ESym SX; ENum "Float" "0.500000000000000" (1 # 2) (1 # 2)].
+Definition w_log : sexpr := EApp "log" [ESym SX].
+Definition w_powm1 : sexpr := EApp "Mul" [EApp "Pow" [ESym SX; ESym (SA 0)]; ENum "NegativeOne" "-1" (-1 # 1) (-1 # 1)].
+
+Theorem labels_in_basis_refuted :
+  exists b e d l, supportedb e = true /\ over_basisb b e = true /\ std_binary b = true
+    /\ decorate b e = Some d /\ no_bad b d = true /\ to_list b None d = Some l
+    /\ map show_rlabel (relabel l) = ["sqrt"; "x"]
+    /\ forallb (in_basisb b) (relabel l) = false
+    /\ final_labels b false l = None.
+Proof.
+  exists keep_duplicates, w_sqrt. eexists. eexists.
+  split; [vm_compute; reflexivity|]. split; [vm_compute; reflexivity|]. split; [vm_compute; reflexivity|].
+  split; [vm_compute; reflexivity|]. split; [vm_compute; reflexivity|]. split; [vm_compute; reflexivity|].
+  split; [vm_compute; reflexivity|]. split; vm_compute; reflexivity.
+Qed.
+
+Theorem labels_in_basis_refuted_log :
+  exists b e d l, supportedb e = true /\ over_basisb b e = true /\ std_binary b = true
+    /\ decorate b e = Some d /\ no_bad b d = true /\ to_list b None d = Some l
+    /\ map show_rlabel (relabel l) = ["log"; "x"]
+    /\ forallb (in_basisb b) (relabel l) = false
+    /\ final_labels b false l = None.
+Proof.
+  exists base_e_maths, w_log. eexists. eexists.
+  split; [vm_compute; reflexivity|]. split; [vm_compute; reflexivity|]. split; [vm_compute; reflexivity|].
+  split; [vm_compute; reflexivity|]. split; [vm_compute; reflexivity|]. split; [vm_compute; reflexivity|].
+  split; [vm_compute; reflexivity|]. split; vm_compute; reflexivity.
+Qed.
+
+Theorem to_list_wellformed_refuted :
+  exists b e d l, supportedb e = true /\ exactb e = true /\ decorate b e = Some d /\ to_list b None d = Some l
+    /\ map show_label l = ["Mul"; "-1"]
+    /\ of_prefix (relabel l) = None
+    /\ count_nodes b d = Some 2%nat.
+Proof.
+  exists core_maths, w_powm1. eexists. eexists.
+  split; [vm_compute; reflexivity|]. split; [vm_compute; reflexivity|]. split; [vm_compute; reflexivity|].
+  split; [vm_compute; reflexivity|]. split; [vm_compute; reflexivity|]. split; vm_compute; reflexivity.
+Qed.
+
+(* ================================================================ relabelling and `replace floats` *)
+Lemma parent_is_pow_hit x p h :
+  (if r_is_num x then (pw <- parent_is_pow p ;; Some (negb pw)) else Some (r_is_par x)) = Some h ->
+  h = hitb (x, p).
+Proof.
+  unfold hitb. simpl. destruct (r_is_num x).
+  - destruct p as [q|]; simpl; [|discriminate]. intros [= <-]. reflexivity.
+  - intros [= <-]. reflexivity.
+Qed.
+
+Lemma replace_from_spec : forall l k out,
+  replace_from k l = Some out ->
+  length out = length l
+  /\ forall j xp, nth_error l j = Some xp ->
+       nth_error out j = Some (if hitb xp then RSym (SA (k + nhits (firstn j l))) else fst xp).
+Proof.
+  induction l as [|[x p] r IH]; intros k out H.
+  - simpl in H. injection H as <-. split; [reflexivity|]. intros [|j] xp Hj; discriminate.
+  - cbn [replace_from] in H.
+    destruct (if r_is_num x then (pw <- parent_is_pow p ;; Some (negb pw)) else Some (r_is_par x)) as [h|] eqn:Hh;
+      [|discriminate].
+    apply parent_is_pow_hit in Hh. subst h. cbn [obind] in H.
+    destruct (hitb (x, p)) eqn:Hit.
+    + destruct (replace_from (S k) r) as [t|] eqn:Ht; [|discriminate]. cbn [obind] in H. injection H as <-.
+      destruct (IH _ _ Ht) as [Hl Hn]. split; [simpl; congruence|].
+      intros [|j] xp Hj.
+      * simpl in Hj. injection Hj as <-. simpl. rewrite Hit. unfold nhits. simpl. rewrite Nat.add_0_r. reflexivity.
+      * simpl in Hj. simpl. rewrite (Hn j xp Hj). unfold nhits. simpl. rewrite Hit. simpl.
+        destruct (hitb xp); [|reflexivity]. do 3 f_equal. lia.
+    + destruct (replace_from k r) as [t|] eqn:Ht; [|discriminate]. cbn [obind] in H. injection H as <-.
+      destruct (IH _ _ Ht) as [Hl Hn]. split; [simpl; congruence|].
+      intros [|j] xp Hj.
+      * simpl in Hj. injection Hj as <-. simpl. rewrite Hit. reflexivity.
+      * simpl in Hj. simpl. rewrite (Hn j xp Hj). unfold nhits. simpl. rewrite Hit. reflexivity.
+Qed.
+
+Lemma final_labels_inv b rf l0 l' :
+  final_labels b rf l0 = Some l' ->
+  exists s ps, shape b (relabel l0) = Some s /\ parents (combine (relabel l0) s) = Some ps
+    /\ (if rf then replace_from 0 (combine (relabel l0) ps) = Some l' else l' = relabel l0).
+Proof.
+  unfold final_labels. destruct (shape b (relabel l0)) as [s|] eqn:Hs; [|discriminate]. cbn [obind].
+  destruct (parents (combine (relabel l0) s)) as [ps|] eqn:Hp; [|discriminate]. cbn [obind].
+  intro H. exists s, ps. split; [reflexivity|]. split; [exact Hp|].
+  destruct rf; [exact H|]. injection H as <-. reflexivity.
+Qed.
+
+(* without replacement every constant keeps its printed text and value, and nothing else changes either *)
+Theorem constants_kept b l0 l' :
+  final_labels b false l0 = Some l' ->
+  l' = relabel l0
+  /\ forall j t qv qp, nth_error l0 j = Some (LNum t qv qp) -> nth_error l' j = Some (RNum (lower t) qp).
+Proof.
+  intro H. destruct (final_labels_inv _ _ _ _ H) as [s [ps [_ [_ ->]]]]. split; [reflexivity|].
+  intros j t qv qp Hj. unfold relabel. rewrite nth_error_map, Hj. reflexivity.
+Qed.
+
+(* with replacement: position j is replaced iff it is a parameter, or a number whose parent is not pow; the k-th
+   replaced position (in list order) becomes a<k>; everything else is untouched *)
+Theorem replace_floats_spec b l0 l' :
+  final_labels b true l0 = Some l' ->
+  exists s ps, shape b (relabel l0) = Some s /\ parents (combine (relabel l0) s) = Some ps
+    /\ length l' = length (combine (relabel l0) ps)
+    /\ forall j x p, nth_error (combine (relabel l0) ps) j = Some (x, p) ->
+         nth_error l' j = Some (if hitb (x, p) then RSym (SA (nhits (firstn j (combine (relabel l0) ps)))) else x).
+Proof.
+  intro H. destruct (final_labels_inv _ _ _ _ H) as [s [ps [Hs [Hp Hr]]]].
+  exists s, ps. split; [exact Hs|]. split; [exact Hp|].
+  destruct (replace_from_spec _ _ _ Hr) as [Hl Hn]. split; [exact Hl|].
+  intros j x p Hj. rewrite (Hn j (x, p) Hj). reflexivity.
+Qed.
+
+Theorem no_param_in_exponent b l0 l' :
+  final_labels b true l0 = Some l' ->
+  exists s ps, shape b (relabel l0) = Some s /\ parents (combine (relabel l0) s) = Some ps
+    /\ forall j t q p, nth_error (combine (relabel l0) ps) j = Some (RNum t q, p) -> is_pow_parent p = true ->
+         nth_error l' j = Some (RNum t q).
+Proof.
+  intro H. destruct (replace_floats_spec _ _ _ H) as [s [ps [Hs [Hp [_ Hn]]]]].
+  exists s, ps. split; [exact Hs|]. split; [exact Hp|].
+  intros j t q p Hj Hpow. rewrite (Hn j _ _ Hj). unfold hitb. simpl. rewrite Hpow. reflexivity.
+Qed.
+
+Lemma nhits_firstn_lt l j1 j2 xp :
+  (j1 < j2)%nat -> nth_error l j1 = Some xp -> hitb xp = true -> (nhits (firstn j1 l) < nhits (firstn j2 l))%nat.
+Proof.
+  revert j1 j2. induction l as [|y r IH]; intros j1 j2 Hlt Hj Hh.
+  - destruct j1; discriminate.
+  - destruct j2 as [|j2]; [lia|]. destruct j1 as [|j1].
+    + simpl in Hj. injection Hj as ->. unfold nhits. simpl. rewrite Hh. simpl. lia.
+    + simpl in Hj. assert (H := IH j1 j2 ltac:(lia) Hj Hh). unfold nhits in *. simpl.
+      destruct (hitb y); simpl; lia.
+Qed.
+
+(* parameters of the result are numbered by position *)
+Theorem param_order_by_position b l0 l' :
+  final_labels b true l0 = Some l' ->
+  forall j1 j2 i1 i2, (j1 < j2)%nat ->
+    nth_error l' j1 = Some (RSym (SA i1)) -> nth_error l' j2 = Some (RSym (SA i2)) -> (i1 < i2)%nat.
+Proof.
+  intro H. destruct (replace_floats_spec _ _ _ H) as [s [ps [_ [_ [Hl Hn]]]]].
+  intros j1 j2 i1 i2 Hlt H1 H2.
+  assert (Hex : forall j i, nth_error l' j = Some (RSym (SA i)) ->
+            exists xp, nth_error (combine (relabel l0) ps) j = Some xp /\ hitb xp = true
+                       /\ i = nhits (firstn j (combine (relabel l0) ps))).
+  { intros j i Hj.
+    destruct (nth_error (combine (relabel l0) ps) j) as [[x p]|] eqn:Hc.
+    - exists (x, p). split; [reflexivity|]. rewrite (Hn j x p Hc) in Hj.
+      destruct (hitb (x, p)) eqn:Hit.
+      + injection Hj as <-. auto.
+      + injection Hj as ->. unfold hitb in Hit. simpl in Hit. discriminate.
+    - apply nth_error_None in Hc. assert (nth_error l' j <> None) by congruence.
+      apply nth_error_Some in H0. lia. }
+  destruct (Hex _ _ H1) as [xp1 [Hc1 [Hh1 ->]]]. destruct (Hex _ _ H2) as [xp2 [Hc2 [Hh2 ->]]].
+  eapply nhits_firstn_lt; eauto.
+Qed.
+
+(* ================================================================ the choice among the four parses *)
+Lemma string_to_node_inv b ps i d l :
+  string_to_node b ps = Some (i, d, l) ->
+  exists e, nth_error ps i = Some (Some e) /\ decorate b e = Some d /\ to_list b None d = Some l.
+Proof.
+  unfold string_to_node.
+  destruct (nanargmin _) as [k|]; [|discriminate]. cbn [obind].
+  destruct (nth_error (map (candidate b) ps) k) as [[[d' l']|]|] eqn:Hk; try discriminate.
+  intros [= <- <- <-].
+  rewrite nth_error_map in Hk. destruct (nth_error ps k) as [oe|]; [|discriminate]. simpl in Hk.
+  injection Hk as Hk. unfold candidate in Hk. destruct oe as [e|]; [|discriminate]. cbn [obind] in Hk.
+  destruct (decorate b e) as [d0|] eqn:Ed; [|discriminate]. cbn [obind] in Hk.
+  destruct (to_list b None d0) as [l0|] eqn:El; [|discriminate]. cbn [obind] in Hk. injection Hk as <- <-.
+  exists e. auto.
+Qed.
+
+(* whichever candidate is selected, its labels denote the formula -- under the parse-oracle contract that every
+   parse denotes the formula f on the domain considered (and lies in the theorems' fragment) *)
+Theorem choice_irrelevant b ps (dom : (nat -> R) -> R -> Prop) (f : (nat -> R) -> R -> R) i d l :
+  (forall j e, nth_error ps j = Some (Some e) ->
+     supportedb e = true /\ exactb e = true
+     /\ forall env x, dom env x -> pos b env x e /\ sem env x e = f env x) ->
+  string_to_node b ps = Some (i, d, l) -> no_bad b d = true ->
+  exists t, of_prefix (relabel l) = Some t /\ tsize t = length l
+    /\ forall env x, dom env x -> evalT env x t = f env x.
+Proof.
+  intros Hc Hs Hnb. destruct (string_to_node_inv _ _ _ _ _ Hs) as [e [Hi [Ed El]]].
+  destruct (Hc i e Hi) as [Hsup [Hex Hdom]].
+  destruct (to_list_main b e d l Hsup Ed Hnb El) as [t [Ht [Hsz [Hsem _]]]].
+  exists t. split; [exact Ht|]. split; [exact Hsz|].
+  intros env x Hd. destruct (Hdom env x Hd) as [Hp Hf]. rewrite (Hsem Hex env x Hp). exact Hf.
+Qed.
+
+(* string_to_node returns a candidate with the smallest count *)
+Lemma argmin_from_spec : forall l i best j c,
+  argmin_from i best l = Some (j, c) ->
+  (best = Some (j, c) \/ ((i <= j)%nat /\ nth_error l (j - i) = Some (Some c)))
+  /\ (forall k c', nth_error l k = Some (Some c') -> (c <= c')%nat)
+  /\ (forall jb cb, best = Some (jb, cb) -> (c <= cb)%nat).
+Proof.
+  induction l as [|o r IH]; intros i best j c H.
+  - simpl in H. subst best. split; [left; reflexivity|]. split.
+    + intros [|k] c' Hk; discriminate.
+    + intros jb cb [= <- <-]. lia.
+  - simpl in H. destruct o as [c0|].
+    + destruct best as [[jb cb]|].
+      * destruct (c0 <? cb)%nat eqn:Hlt.
+        -- apply Nat.ltb_lt in Hlt. destruct (IH _ _ _ _ H) as [Hsrc [Hall Hb]]. split; [|split].
+           ++ right. destruct Hsrc as [[= <- <-] | [Hle Hn]].
+              ** split; [lia|]. rewrite Nat.sub_diag. reflexivity.
+              ** split; [lia|]. replace (j - i)%nat with (S (j - S i)) by lia. exact Hn.
+           ++ intros [|k] c' Hk; [simpl in Hk; injection Hk as <-; apply (Hb i c0 eq_refl)|apply (Hall k c' Hk)].
+           ++ intros jb' cb' [= <- <-]. pose proof (Hb i c0 eq_refl). lia.
+        -- apply Nat.ltb_ge in Hlt. destruct (IH _ _ _ _ H) as [Hsrc [Hall Hb]]. split; [|split].
+           ++ destruct Hsrc as [Heq | [Hle Hn]]; [left; exact Heq|right].
+              split; [lia|]. replace (j - i)%nat with (S (j - S i)) by lia. exact Hn.
+           ++ intros [|k] c' Hk; [simpl in Hk; injection Hk as <-; pose proof (Hb jb cb eq_refl); lia|apply (Hall k c' Hk)].
+           ++ exact Hb.
+      * destruct (IH _ _ _ _ H) as [Hsrc [Hall Hb]]. split; [|split].
+        -- right. destruct Hsrc as [[= <- <-] | [Hle Hn]].
+           ++ split; [lia|]. rewrite Nat.sub_diag. reflexivity.
+           ++ split; [lia|]. replace (j - i)%nat with (S (j - S i)) by lia. exact Hn.
+        -- intros [|k] c' Hk; [simpl in Hk; injection Hk as <-; apply (Hb i c0 eq_refl)|apply (Hall k c' Hk)].
+        -- intros jb cb Hbb. discriminate.
+    + destruct (IH _ _ _ _ H) as [Hsrc [Hall Hb]]. split; [|split].
+      * destruct Hsrc as [Heq | [Hle Hn]]; [left; exact Heq|right].
+        split; [lia|]. replace (j - i)%nat with (S (j - S i)) by lia. exact Hn.
+      * intros [|k] c' Hk; [discriminate|apply (Hall k c' Hk)].
+      * exact Hb.
+Qed.
+
+Theorem string_to_node_minimal b ps i d l :
+  string_to_node b ps = Some (i, d, l) ->
+  forall k e' d' l', nth_error ps k = Some (Some e') -> decorate b e' = Some d' -> to_list b None d' = Some l' ->
+    (length l <= length l')%nat.
+Proof.
+  unfold string_to_node. intros H k e' d' l' Hk Ed El.
+  destruct (nanargmin _) as [j|] eqn:Hm; [|discriminate]. cbn [obind] in H.
+  destruct (nth_error (map (candidate b) ps) j) as [[[d0 l0]|]|] eqn:Hj; try discriminate.
+  injection H as <- <- <-.
+  unfold nanargmin in Hm.
+  destruct (argmin_from 0 None _) as [[j' c]|] eqn:Ha; [|discriminate]. simpl in Hm. injection Hm as ->.
+  destruct (argmin_from_spec _ _ _ _ _ Ha) as [Hsrc [Hall _]].
+  destruct Hsrc as [Hbad | [_ Hn]]; [discriminate|]. rewrite Nat.sub_0_r in Hn.
+  rewrite nth_error_map, Hj in Hn. simpl in Hn. injection Hn as <-.
+  apply (Hall k). rewrite nth_error_map, nth_error_map, Hk. simpl.
+  unfold candidate. cbn [obind]. rewrite Ed. cbn [obind]. rewrite El. reflexivity.
+Qed.
